@@ -902,6 +902,49 @@ func runC13(c *h.Ctx) {
 			}
 		}
 	}
+	// both unary operators on the same number in one execution: each applies
+	// to the item it is given, whatever the other has been given before -
+	// compared with the same expression written without unary operators
+	{
+		pairs := [][2]string{{"+$.a - -$.a", "$.a + $.a"}, {"-$.a + +$.a", "$.a - $.a"}, {"-$.a - +$.b", "0 - $.a - $.b"}, {"-$.a * +$.a", "(0 - $.a) * $.a"}, {"+$.b + -$.a", "$.b - $.a"},
+			{"$.l[*] ? (-@ < +@)", "$.l[*] ? (0 - @ < @)"}, {"$.l[*] ? (+@ == -@)", "$.l[*] ? (@ == 0 - @)"}, {"-$.l[0] - +$.l[0]", "0 - $.l[0] - $.l[0]"}, {"(-$.a).abs() + +$.a", "$.a.abs() + $.a"}, {"+$.a / -$.b", "$.a / (0 - $.b)"}}
+		k := 0
+		for _, a := range []string{"5", "-3", "2.5", "0", "9007199254740993", "1e2"} {
+			for _, b := range []string{"5", "2", "-2.5"} {
+				for _, pr := range pairs {
+					k++
+					if !c.Mine(k) {
+						continue
+					}
+					d := fmt.Sprintf(`{"a":%s,"b":%s,"l":[%s,%s,%s,0,-1]}`, a, b, a, b, a)
+					for _, useNum := range []bool{false, true} {
+						pu, pp := cachedPath(pr[0]), cachedPath(pr[1])
+						if pu == nil || pp == nil {
+							c.Count("gen.unparsable", 1)
+							continue
+						}
+						ou := h.Call("query", pu, h.Decode(d, useNum), h.Opts{})
+						op := h.Call("query", pp, h.Decode(d, useNum), h.Opts{})
+						c.Eval(2)
+						if ou.Class == h.Panic || op.Class == h.Panic || ou.Class == h.Invalid || op.Class == h.Invalid {
+							continue
+						}
+						same := ou.Class == op.Class && len(ou.Items) == len(op.Items)
+						for j := 0; same && j < len(ou.Items); j++ {
+							ru, ok1 := h.Rat(ou.Items[j])
+							rp, ok2 := h.Rat(op.Items[j])
+							same = ok1 && ok2 && ru.Cmp(rp) == 0
+						}
+						if !same {
+							c.Violate("unary.map", h.F("form", "both-unary-operators"), fmt.Sprintf("Query(%s) = %s but Query(%s) = %s on %s", pr[0], ou.Summary(), pr[1], op.Summary(), d), h.Case{Kind: "exec", Path: pr[0], Doc: d, UseNum: useNum, Extra: map[string]string{"plain": pr[1]}})
+						} else {
+							c.Held("unary.map")
+						}
+					}
+				}
+			}
+		}
+	}
 	// a unary operator inside parentheses with steps after it: the steps get
 	// what the operator yields, so a non-numeric operand fails before them -
 	// also when only existence is asked for
